@@ -10,7 +10,8 @@ PROPERTY_ID = "C32"
 LEVEL = "exploration"
 EXHAUSTIVE = True
 RULE = ("Exhaustive: every listed one-string function on all 259 strings of length 0..3 over {a, b, space, comma, é, "
-        "☃}; every two-string function on all pairs of strings of length 0..2 (1 849 pairs; with an empty needle "
+        "☃}; the trim functions also on all 341 strings of length 0..4 over {a, space, tab, newline} (the doc comments "
+        "say they remove whitespace); every two-string function on all pairs of strings of length 0..2 (1 849 pairs; with an empty needle "
         "only contains / starts_with / ends_with / strip_prefix / strip_suffix / index_of are compared, the rest go to "
         "the termination sub-check); substring on all strings of length <= 3 x from,to in -1..4 and 99; list functions on "
         "all Int lists of length 0..3 over {-1, 0, 2} with index arguments in -4..4; min/max/range on a boundary set. "
@@ -115,8 +116,10 @@ def m_get(xs, i):
     return ("Some", xs[i]) if 0 <= i < len(xs) else ("None",)
 
 
+# "whitespace" in the doc comments of the trim functions: the characters a Garden string literal can express
+WS = " \t\n"
 ONE_STRING = {
-    "trim_left": lambda s: s.lstrip(" "), "trim_right": lambda s: s.rstrip(" "), "trim": lambda s: s.strip(" "),
+    "trim_left": lambda s: s.lstrip(WS), "trim_right": lambda s: s.rstrip(WS), "trim": lambda s: s.strip(WS),
     "chars": lambda s: list(s), "len": lambda s: len(s), "lines": m_lines,
 }
 TWO_STRING = {
@@ -254,6 +257,12 @@ def enum_batches(tier):
         batch += enc(calls_substring(s)) if len(s) <= 2 or tier == "thorough" else []
         if len(batch) >= 150:
             yield flush()
+    for k in range(0, 5):
+        for t in itertools.product(["a", " ", "\t", "\n"], repeat=k):
+            w = "".join(t)
+            batch += enc([(f"{gs(w)}.{f}()", ONE_STRING[f](w)) for f in ("trim", "trim_left", "trim_right")])
+            if len(batch) >= 150:
+                yield flush()
     for s in strings(2):
         for n in strings(2):
             if n == "":
